@@ -10,6 +10,7 @@ import (
 
 	"github.com/hashicorp/go-memdb"
 
+	"github.com/hashicorp/consul/agent/consul/discoverychain"
 	"github.com/hashicorp/consul/agent/consul/state"
 	"github.com/hashicorp/consul/agent/structs"
 )
@@ -274,5 +275,15 @@ func wideQueries(u *xuniverse) []*query {
 		return x3(st.ExportedServicesForAllPeersByName(ws, "dc1", *em))
 	})
 	add("PeeringListDeleted", "", func(st *state.Store, ws memdb.WatchSet) (uint64, any, error) { return x3(st.PeeringListDeleted(ws)) })
+	// round 5: the compiled discovery chain (DiscoveryChain.Get is a blocking endpoint); needs a CA configuration
+	// (trust domain), which the wide histories now write at their start
+	for _, s := range u.serviceNames[:3] {
+		s := s
+		add("ServiceDiscoveryChain", s, func(st *state.Store, ws memdb.WatchSet) (uint64, any, error) {
+			idx, chain, _, err := st.ServiceDiscoveryChain(ws, s, em, discoverychain.CompileRequest{ServiceName: s, EvaluateInNamespace: "default",
+				EvaluateInPartition: "default", EvaluateInDatacenter: "dc1"})
+			return idx, chain, err
+		}).Service = s
+	}
 	return qs
 }
